@@ -143,7 +143,19 @@ def _check_case(case, coll, coll_dir) -> Verdict:
         v.discarded("timeout (inconclusive)")
         return v
     if "setup_error" in A:
-        v.discarded("s=1 setup failed")
+        # set-up failing in one unit system and succeeding in the other is itself a covariance violation; only a
+        # model that cannot be set up in either is outside the domain
+        B = _run(specs, cfg, coll, coll_dir)
+        if B.get("timeout"):
+            v.discarded("timeout (inconclusive)")
+            return v
+        v.checked("setup")
+        if "setup_error" not in B:
+            v.fail("setup", cls + " base-fails",
+                   f"set-up fails in units s=1 ({A['setup_error'][:160]}) but succeeds for s={s:g}"
+                   + (" (phase guesses typed as integers where the units allow)" if case["spec"].get("guess_int") else ""))
+            return v
+        v.discarded("set-up failed in both unit systems")
         return v
     B = _run(specs, cfg, coll, coll_dir)
     v.checked("setup")
@@ -290,9 +302,16 @@ def _check_case(case, coll, coll_dir) -> Verdict:
                     v.fail("wall", cls, f"wall widths*Tn / offsets differ: width rel {wr:.3e}, offset {orr:.3e}")
                 for k2 in ("temperaturePlus", "temperatureMinus"):
                     ta, tb = sa[k2] / Tn_a, sb[k2] / Tn_b
-                    # T+- depend on v: tolerance from the velocity difference actually observed
-                    if abs(ta - tb) > 5.0 * dv + 1e-5:
-                        v.fail("wall", cls, f"{k2}/Tn differs: {tb} vs {ta}")
+                    # T+- depend on v: tolerance from the velocity difference actually observed, plus what the
+                    # matching tolerance allows in each of the two runs (K hydroRelTol each) and the measured
+                    # sensitivity of T+- to the tolerance setting at s=1 (as for the other outputs)
+                    sens_t = abs(sc[k2] / Tn_a - ta) if (sc is not None and sc.get(k2) is not None) else 0.0
+                    sens_t = K * sens_t * (ratio * 10 if setting == "tight" else 1.0)
+                    allow_t = 5.0 * dv + 2 * K * tolHyd + sens_t
+                    v.info[f"{k2}_diff_over_allow"] = abs(ta - tb) / allow_t
+                    if abs(ta - tb) > allow_t:
+                        v.fail("wall", cls, f"{k2}/Tn differs: {tb} vs {ta} (allowed {allow_t:.2e}: 5 dv = {5 * dv:.1e}, "
+                                            f"2K hydroRelTol = {2 * K * tolHyd:.1e}, tolerance sensitivity {sens_t:.1e})")
     v.violations.extend(pat)
     v.nontrivial = bool(abs(case["u"]) >= 0.5 and ok_ref and not v.discard)
     return v
